@@ -165,6 +165,7 @@ func runC05(args []string) error {
 		// interfaces probed dynamically by compiled code: all subsets (every run) + random chains
 		tbl := hxTable()
 		hxs := genHostXPairs(tbl)
+		hxs = append(hxs, genHostXProvenance(r.fork(), tbl)...)
 		for i := 0; i < nHostX; i++ {
 			hxs = append(hxs, genHostXRandom(r.fork(), tbl))
 		}
